@@ -160,6 +160,34 @@ def callee_ctl(rng):
     return dict(kind="ctl:" + variant, sig=sig, formals=formals, preds=preds, need=need, body=body)
 
 
+CMP_OPS = ["==", "<", "<=", ">", ">="]
+
+
+def callee_guard(rng):
+    """guards that compare an index expression with control formals, one of every comparison operator,
+    alone or combined with and / or"""
+    variant = rng.choice(["one", "one", "one-else", "and", "or"])
+    preds = []
+    if variant in ("one", "one-else"):
+        op = rng.choice(CMP_OPS)
+        lhs = rng.choice(["i", "i", "i + 1", "k"])
+        cond = {"i": "i %s k", "k": "k %s i", "i + 1": "i + 1 %s k"}[lhs] % op
+        sig = ["dst: [R][4]", "src: [R][4]", "k: index"]
+        formals = [("dst", "tensor", [4]), ("src", "tensor", [4]), ("k", "index", None)]
+        body = ["for i in seq(0, 4):", "    if %s:" % cond, "        dst[i] = src[i]"]
+        if variant == "one-else":
+            body += ["    else:", "        dst[i] = 0.0"]
+        kind = "guard:%s" % op
+    else:
+        o1, o2 = rng.choice([">=", ">", "=="]), rng.choice(["<", "<=", "=="])
+        conn = "and" if variant == "and" else "or"
+        sig = ["dst: [R][4]", "src: [R][4]", "lo: index", "hi: index"]
+        formals = [("dst", "tensor", [4]), ("src", "tensor", [4]), ("lo", "index", None), ("hi", "index", None)]
+        body = ["for i in seq(0, 4):", "    if i %s lo %s i %s hi:" % (o1, conn, o2), "        dst[i] += src[i]"]
+        kind = "guard:%s" % conn
+    return dict(kind=kind, sig=sig, formals=formals, preds=preds, need={}, body=body)
+
+
 def callee_scalar(rng):
     variant = rng.choice(["acc", "scale"])
     if variant == "acc":
@@ -173,7 +201,8 @@ def callee_scalar(rng):
     return dict(kind="scalar:" + variant, sig=sig, formals=formals, preds=[], need={}, body=body)
 
 
-TEMPLATES = [callee_vec, callee_vec, callee_fix, callee_fix, callee_mat, callee_ctl, callee_ctl, callee_scalar]
+TEMPLATES = [callee_vec, callee_vec, callee_fix, callee_fix, callee_mat, callee_ctl, callee_ctl, callee_scalar,
+             callee_guard, callee_guard, callee_guard]
 
 
 def callee_src(c, name="callee"):
@@ -378,7 +407,7 @@ def _subexprs(node, path, out):
         pass
 
 
-def perturbations(p: Procedure, parent_path, attr, lo, hi, rng, limit=6):
+def perturbations(p: Procedure, parent_path, attr, lo, hi, rng, limit=6, prefer=None):
     """list of (kind, Procedure): one small edit inside the block [lo,hi) of the list `attr` of the node at
     parent_path.  Edits are plain `update`s of existing nodes; the result is NOT re-checked here."""
     ir = p._loopir_proc
@@ -414,9 +443,13 @@ def perturbations(p: Procedure, parent_path, attr, lo, hi, rng, limit=6):
         elif isinstance(n, LoopIR.BinOp) and n.op == "*" and n.type.is_indexable():
             if isinstance(n.lhs, LoopIR.Const):
                 cands.append(("stride-coeff", pth, lambda n=n: n.update(lhs=n.lhs.update(val=n.lhs.val + 1))))
-        elif isinstance(n, LoopIR.BinOp) and n.op in ("<", "<=", ">", ">="):
-            flip = {"<": "<=", "<=": "<", ">": ">=", ">=": ">"}[n.op]
-            cands.append(("cmp-strictness", pth, lambda n=n, flip=flip: n.update(op=flip)))
+        elif isinstance(n, LoopIR.BinOp) and n.op in CMP_OPS and n.lhs.type.is_indexable() and n.rhs.type.is_indexable():
+            for other in CMP_OPS:   # every ordered pair of comparison operators
+                if other != n.op:
+                    cands.append(("cmp:%s->%s" % (n.op, other), pth, lambda n=n, other=other: n.update(op=other)))
+        elif isinstance(n, LoopIR.BinOp) and n.op in ("and", "or"):
+            other = "or" if n.op == "and" else "and"
+            cands.append(("bool:%s->%s" % (n.op, other), pth, lambda n=n, other=other: n.update(op=other)))
         if isinstance(n, LoopIR.Read) and n.type.is_real_scalar() and len(n.idx) >= 1:
             if len(n.idx) == 2:
                 cands.append(("transpose", pth, lambda n=n: n.update(idx=[n.idx[1], n.idx[0]])))
@@ -449,9 +482,11 @@ def perturbations(p: Procedure, parent_path, attr, lo, hi, rng, limit=6):
         if isinstance(n, LoopIR.If) and n.orelse:
             cands.append(("swap-branches", pth, lambda n=n: n.update(body=n.orelse, orelse=n.body)))
     rng.shuffle(cands)
+    if prefer:
+        cands = [c for c in cands if c[0].startswith(prefer)] + [c for c in cands if not c[0].startswith(prefer)]
     out, seen = [], set()
     for kind, pth, mk in cands:
-        if kind in seen and rng.random() < 0.6:
+        if kind in seen and rng.random() < 0.6 and not (prefer and kind.startswith(prefer)):
             continue
         seen.add(kind)
         try:
